@@ -210,3 +210,68 @@ def r17_4(ctx):
             ctx.violation(["set-not-failure"], "with TXTPP_FILE set, main does not return FAILURE right away", site=ctx.site(m, 0))
     else:
         ctx.violation(["no-empty-test"], "main no longer distinguishes an empty TXTPP_FILE", site=ctx.site(m, 0))
+
+
+@rule("C17", "R17.5", floor=1)
+def r17_5(ctx):
+    """the shell is found through PATH: the literal name is used as a path only when the PATH lookup (which) failed — never before it,
+    where a file of that name in the process's working directory would be run instead of the shell"""
+    lib = ctx.lib
+    rs = body(ctx, "resolve_shell")
+    if not rs:
+        return
+    wh = calls_to(rs, "which::which")
+    cz = calls_to(rs, "std::path::Path::canonicalize")
+    if not wh or not cz:
+        ctx.anchor_missing("which() / canonicalize() in resolve_shell")
+        return
+    err_e = enum_edges(rs, lib, "std::result::Result", lambda vs: vs == {"Err"}, src_pred=lambda c: has_call(c.src, "which::which"))
+    p_exe = rs.param_index_by_name("exe")
+    bad = None
+    # walk back from the canonicalised operand; wherever several definitions merge, each one that brings in the literal name (and not
+    # the which() result) must sit behind the Err edge of which()
+    is_which = lambda x: x.kind == "call" and C.callee_name(x.data) == "which::which"
+    is_name = lambda x: x.kind == "param" and x.data == p_exe
+
+    def def_leaves(rec):
+        if rec[0] == "assign":
+            rv = rec[3]["rv"]
+            if rv["k"] in ("use", "cast"):
+                return C.trace(rs, rv["op"])
+            if rv["k"] in ("ref", "copyforderef"):
+                return C.trace(rs, rv["pl"])
+            return []
+        if rec[0] == "call":
+            t = rec[2]
+            if is_which(C.Leaf("call", rec[1], t)):
+                return [C.Leaf("call", rec[1], t)]
+            return C.trace(rs, t["args"][0]) if t["args"] and C.is_transparent(t) else []
+        return []
+
+    seen = set()
+    work = [C.op_place(cz[0][1]["args"][0])["l"]]
+    while work:
+        l = work.pop()
+        if l in seen:
+            continue
+        seen.add(l)
+        recs = [r for r in rs.defs().get(l, []) if r[0] in ("assign", "call")]
+        for rec in recs:
+            lv = def_leaves(rec)
+            if any(is_name(x) for x in lv) and not any(is_which(x) for x in lv):
+                if not (err_e and C.guarded(rs, rec[1], err_e)):
+                    bad = rec[1]
+            elif any(is_name(x) for x in lv):
+                # both origins still mixed: look one definition further back
+                if rec[0] == "assign":
+                    rv = rec[3]["rv"]
+                    p = C.op_place(rv["op"]) if rv["k"] in ("use", "cast") else rv.get("pl")
+                else:
+                    p = C.op_place(rec[2]["args"][0]) if rec[2]["args"] else None
+                if p is not None:
+                    work.append(p["l"])
+    if bad is not None:
+        ctx.violation([rs.name, "name-before-path-lookup"], "the shell name is used as a file path without the PATH lookup having failed first "
+                      "(a same-named file in the working directory would be executed)", site=ctx.site(rs, bad))
+    else:
+        ctx.ok("literal shell name only on the Err edge of which()", site=ctx.site(rs, wh[0][0]))
